@@ -18,6 +18,19 @@ func main() {
 		cmdVerify(os.Args[2:])
 	case "check":
 		cmdCheck(os.Args[2:])
+	case "ssa":
+		e, err := Load("/repo", nil)
+		if err != nil {
+			fmt.Fprintln(os.Stderr, err)
+			os.Exit(2)
+		}
+		for _, k := range os.Args[2:] {
+			if fn := e.fnByKey[k]; fn != nil {
+				fn.WriteTo(os.Stdout)
+			} else {
+				fmt.Println("no function", k)
+			}
+		}
 	case "list":
 		cmdList(os.Args[2:])
 	case "ledger":
